@@ -117,8 +117,8 @@ def rand_key(rng, known):
     if r < 0.6:
         return rng.choice(known)
     for _ in range(50):
-        k = "".join(rng.choice("ABCXYZ019_ :;\\/É猫") for _ in range(rng.randrange(1, 7)))
-        if is_upper(k) and k not in ("NOTES", "NOTEDATA") and "#" not in k and k[0] not in "\r\n" and safe(False, k) and "//" not in k:
+        k = "".join(rng.choice("ABCXYZ019_ :;\\/É猫") for _ in range(rng.randrange(0, 7)))       # the empty string is an upper-case key too
+        if is_upper(k) and k not in ("NOTES", "NOTEDATA") and "#" not in k and k[:1] not in ("\r", "\n") and safe(False, k) and "//" not in k:
             return k
     return "EXTRA"
 
@@ -323,7 +323,10 @@ def rand_msd_text(rng, ssc=None):
             parts.append(rand_param_text(rng, keys))
         parts.append(rng.choice(["\n", "\n", "\r\n", "", " ", "\n\n"]))
     if rng.random() < 0.3:
-        parts.append("#NOTES:" + ":".join(["dance-single", "", "Easy", "3", "0,0", "0000\n0000\n"][: rng.choice([6, 6, 6, 5, 7, 2])]) + rng.choice([";", ""]))
+        comps = ["dance-single", "", "Easy", "3", "0,0", "0000\n0000\n"][: rng.choice([6, 6, 6, 5, 6, 2])]
+        if len(comps) == 6:             # extra components after the note data, blank ones and several of them included
+            comps += rng.choice([[], [], [], [""], ["", ""], ["x"], ["", " ", ""], ["keysounds", " ", ""], ["\n", "\n"]])
+        parts.append("#NOTES:" + ":".join(comps) + rng.choice([";", ""]))
     return "".join(parts)
 
 
